@@ -745,6 +745,10 @@ func runJoeWorld(rc *RunCtx) *Outcome {
 			w = &joeWorld{rc: rc, o: o, ch: rc.Ch}
 			cfg := verifhook.Config{MaxSteps: 3000, Horizon: 24 * time.Hour, KeepLog: rc.KeepLog}
 			cfg.Sticky = []int{0, 0, 2, 6}[rc.Ch.Intn(4, "scheduler stickiness")]
+			if rc.Ch.Chance(1, 4, "priority scheduling") {
+				cfg.PCT = 1 + rc.Ch.Intn(3, "pct depth")
+				o.probe("priority (PCT) scheduling")
+			}
 			if rc.Ch.Chance(1, 4, "ticks") {
 				cfg.TickOneIn = 8
 			}
